@@ -1,4 +1,5 @@
 import PgBifrost.Spec.Filter
+import PgBifrost.Gen.FilterSrc
 /-!
 # C08 — table filter semantics from command line to output (property theorems)
 -/
@@ -41,5 +42,26 @@ theorem cli_filter_correct (wl bl wlr blr : List String) (mt : Nat → Bool) (re
 
 /-- the hypotheses are satisfiable and the statement is about a real decision -/
 example : cliDecision ["public.a"] [] [] [] (fun _ => false) "public.b" = .ok false := by rfl
+
+/-- **the filter model is the filter's source** (`filter_as_in_source`). `Gen/FilterSrc.lean` is `filter/filter.go`
+TRANSLATED on every run: the pass-through rule of `New`, and what `Start` does with one received message — forward
+when passing through, forward BEGIN/COMMIT, search the list (one compiled pattern per entry, or equality), the
+whitelist / blacklist decision, drop or forward. The model's `passes` is EQUAL to it for every configuration,
+matcher, operation and relation. -/
+theorem filter_as_in_source (c : Cfg) (mt : Nat → Bool) (op : MOp) (rel : String) :
+    PgBifrost.Gen.FilterSrc.forwards c mt op rel = passes c mt op rel ∧
+    PgBifrost.Gen.FilterSrc.passthrough c = passthrough c ∧
+    PgBifrost.Gen.FilterSrc.compilesPerEntry = true := by
+  have hp : PgBifrost.Gen.FilterSrc.passthrough c = passthrough c := by
+    simp only [PgBifrost.Gen.FilterSrc.passthrough, passthrough]
+    cases c.whitelist <;> cases h : c.tablelist <;> simp
+  refine ⟨?_, hp, rfl⟩
+  unfold PgBifrost.Gen.FilterSrc.forwards passes found
+  rw [hp]
+  have hsym : (c.tablelist.any fun item => rel == item) = c.tablelist.any (· == rel) := by
+    congr 1; funext item; exact Bool.eq_iff_iff.mpr ⟨fun h => by simpa using (by simpa using h : rel = item).symm, fun h => by simpa using (by simpa using h : item = rel).symm⟩
+  cases hpt : passthrough c <;> cases op <;> cases hw : c.whitelist <;> cases hr : c.regex <;>
+    simp [Id.run, hsym, pure, bind] <;> (repeat' (first | rfl | split)) <;> (try simp_all) <;>
+    (try (intro x hx hxr; subst hxr; contradiction))
 
 end PgBifrost.Props.C08
